@@ -14,11 +14,10 @@ import (
 	"os"
 	"os/exec"
 	"path/filepath"
-	"reflect"
 	"sort"
 	"strings"
 	"time"
-	"unsafe"
+	"verif/checks/nbstate"
 
 	"github.com/TheManticoreProject/Manticore/network/netbios/nbtns"
 	"github.com/TheManticoreProject/Manticore/zz_verif/vrt"
@@ -129,20 +128,12 @@ func apply(t *nbtns.NetBIOSNameServer, o op) result {
 
 // ---------------------------------------------------------------- private state dump
 
-var namesField = func() int {
-	rt := reflect.TypeOf(nbtns.NetBIOSNameServer{})
-	want := reflect.TypeOf(map[string]*nbtns.NameRecord{})
-	for i := 0; i < rt.NumField(); i++ {
-		if rt.Field(i).Type == want {
-			return i
-		}
+func table(t *nbtns.NetBIOSNameServer) map[string]nbtns.NameRecord {
+	m, ok := nbstate.Records(t)
+	if !ok {
+		panic("harness: the name table of nbtns.NetBIOSNameServer (a map from string to NameRecord) was not found")
 	}
-	return -1
-}()
-
-func table(t *nbtns.NetBIOSNameServer) map[string]*nbtns.NameRecord {
-	f := reflect.ValueOf(t).Elem().Field(namesField)
-	return *(*map[string]*nbtns.NameRecord)(unsafe.Pointer(f.UnsafeAddr()))
+	return m
 }
 
 // dump is the canonical state key: every field the methods read, with times reduced to
@@ -879,8 +870,8 @@ func scenarios(c *vf.Ctx) (two1, three1, two2 []scenario) {
 }
 
 func run(c *vf.Ctx) {
-	if namesField < 0 {
-		c.Fatalf("cannot find the private name map of NetBIOSNameServer by type (model out of date)")
+	if !nbstate.Readable() {
+		c.Fatalf("cannot find the private name table of NetBIOSNameServer (a map from string to NameRecord): harness out of date")
 	}
 	c.Rule("sequential: BFS to fix-point over the real table, alphabet = Register{2 names x U/G x 3 address forms x ttl +-1h}, Query, Release, Refresh, MarkConflict, CleanExpired (41 ops; thorough adds a 3-name/4-address run); state key = dump of the private map + reference-model state; " +
 		"concurrent: every interleaving at RWMutex granularity (no preemption bound: the bound is set above the number of scheduling points) of 2 threads x 1 op, 3 threads x 1 op, 2 threads x 2 ops over a colliding operation pool from 5-6 seed states; distinct = distinct states + distinct call/return histories")
